@@ -1,6 +1,7 @@
 package yqlib
 
 import (
+	"bufio"
 	"io"
 	"strings"
 
@@ -352,4 +353,70 @@ func VerifC17NUL() {
 		verifAssert(err == nil, "C17/shell-encode-error "+label)
 	}
 	verifCover("C17/nul/end")
+}
+
+// VerifC17AliasResults: the value handed to @sh or -o=shell may be an alias (`b: *x`, an element `- *x`, an alias of
+// a map): what is written is the encoding of the anchored value — the same text as for the anchored node itself —
+// never the alias name.
+func VerifC17AliasResults() {
+	v := verifStr("v", 2, "\x20\x7e")
+	build := func() *CandidateNode {
+		x := vStr(v)
+		x.Anchor = "x"
+		m := vMap(vStr("k"), vStr(v))
+		m.Anchor = "m"
+		al := func(n *yaml.Node, name string) *yaml.Node { return &yaml.Node{Kind: yaml.AliasNode, Value: name, Alias: n} }
+		return vDoc(vMap(vStr("a"), x, vStr("b"), al(x, "x"), vStr("c"), vSeq(al(x, "x"), vStr("w")), vStr("m"), m, vStr("n"), al(m, "m")))
+	}
+	which := verifChoice("case", 6)
+	var got, want string
+	var okG, okW bool
+	sh := func(expr string) (string, bool) {
+		res, err := vEval(vParse(expr), build())
+		if err != nil || res.Len() < 1 {
+			return "", false
+		}
+		return res.Front().Value.(*CandidateNode).Value, true
+	}
+	shell := func(expr string) (string, bool) {
+		res, err := vEval(vParse(expr), build())
+		if err != nil {
+			return "", false
+		}
+		var sb strings.Builder
+		w := bufio.NewWriter(c17Writer{&sb})
+		printer := NewPrinter(NewShellVariablesEncoder(), NewSinglePrinterWriter(w))
+		if printer.PrintResults(res) != nil {
+			return "", false
+		}
+		_ = w.Flush()
+		return sb.String(), true
+	}
+	switch which {
+	case 0:
+		got, okG = sh(".b | @sh")
+		want, okW = sh(".a | @sh")
+	case 1:
+		got, okG = sh(".c[0] | @sh")
+		want, okW = sh(".a | @sh")
+	case 2:
+		got, okG = sh(".c[] | @sh")
+		want, okW = sh(".a | @sh")
+	case 3:
+		got, okG = shell(".b")
+		want, okW = shell(".a")
+	case 4:
+		got, okG = shell(".n")
+		want, okW = shell(".m")
+	default:
+		got, okG = shell(".c[0]")
+		want, okW = shell(".a")
+	}
+	label := "case=" + verifItoa(int64(which))
+	verifAssert(okG == okW, "C17/alias-result-fails-where-the-anchored-value-does-not "+label)
+	if okG && okW {
+		verifObserve("got", got)
+		verifAssert(verifEqStr(got, want), "C17/alias-result-encoded-as-something-else-than-its-value "+label)
+	}
+	verifCover("C17/alias-results/end")
 }
